@@ -5,6 +5,8 @@ import json, os, subprocess, sys, tempfile, xml.etree.ElementTree as ET
 repo = sys.argv[1] if len(sys.argv) > 1 else "/repo"
 base = json.load(open("/root/.vp/BASELINE.json"))
 env = dict(os.environ); env.pop("OPACUS_VERIF", None)
+if os.environ.get("BASELINE_N"):
+    env.setdefault("OMP_NUM_THREADS", "1")   # xdist workers x torch intra-op threads oversubscribe the machine otherwise
 with tempfile.TemporaryDirectory() as d:
     xml = os.path.join(d, "r.xml")
     cmd = ["/venv/bin/python", "-m", "pytest", "-ra", "-q", "-p", "no:cacheprovider", "--timeout=900",
